@@ -20,6 +20,7 @@ type retRec struct {
 	vals  []Val
 	ord   int
 	pos   token.Pos
+	blk   *ssa.BasicBlock
 }
 
 type edge struct {
@@ -167,6 +168,23 @@ func (f *Frame) resolveName(name string) (Val, bool) {
 	if v, ok := f.lets[name]; ok {
 		return v, true
 	}
+	// address-taken variables: their current value lives in memory
+	if f.curBlock != nil {
+		for _, b := range f.fn.Blocks {
+			for _, in := range b.Instrs {
+				al, ok := in.(*ssa.Alloc)
+				if !ok || al.Comment != name {
+					continue
+				}
+				pv, ok := f.vals[al]
+				if !ok || !(b == f.curBlock || b.Dominates(f.curBlock)) {
+					continue
+				}
+				pt := al.Type().Underlying().(*types.Pointer)
+				return f.e.loadPtr(f.curSt, pv, pt.Elem()), true
+			}
+		}
+	}
 	// loop header phis carry the variable name
 	if f.curBlock != nil {
 		b := f.curBlock
@@ -229,6 +247,20 @@ func (f *Frame) resolveName(name string) (Val, bool) {
 	return Val{}, false
 }
 
+// resolveAddr returns the address of an address-taken local variable.
+func (f *Frame) resolveAddr(name string) (Val, bool) {
+	for _, b := range f.fn.Blocks {
+		for _, in := range b.Instrs {
+			if al, ok := in.(*ssa.Alloc); ok && al.Comment == name {
+				if v, ok := f.vals[al]; ok {
+					return v, true
+				}
+			}
+		}
+	}
+	return Val{}, false
+}
+
 func (f *Frame) valOver(v ssa.Value) Val {
 	if p, ok := v.(*ssa.Phi); ok && f.phiOver != nil {
 		if o, ok := f.phiOver[p]; ok {
@@ -239,7 +271,7 @@ func (f *Frame) valOver(v ssa.Value) Val {
 }
 
 func (f *Frame) env(st *State) *Env {
-	return &Env{e: f.e, vars: map[string]Val{}, st: st, old: f.entrySt, resolve: f.resolveName, pkg: f.e.pkg.Pkg}
+	return &Env{e: f.e, vars: map[string]Val{}, st: st, old: f.entrySt, resolve: f.resolveName, pkg: f.e.pkg.Pkg, params: f.params}
 }
 
 // ---------------------------------------------------------------------------
@@ -260,6 +292,7 @@ func (f *Frame) addObl(kind, label, reach, goal string, local []string, localQ [
 		name = fmt.Sprintf("%s#%d", base, e.safetyCounter[base])
 	}
 	o := &Obligation{Name: name, Func: f.prefix, Kind: kind, Label: label, Mode: e.mode, Reach: reach, Goal: goal, Local: local, LocalQ: localQ, Decls: decls, prelude: e.pre}
+	o.snap()
 	if e.curPos.IsValid() {
 		o.Pos = e.prog.Fset.Position(e.curPos).String()
 	}
@@ -328,7 +361,7 @@ func (f *Frame) assumeFm(reach string, fm *Fm) {
 	}
 	for _, q := range qs {
 		q.Reach = reach
-		f.e.pre.qhyps = append(f.e.pre.qhyps, q)
+		f.e.addQ(q)
 	}
 }
 
@@ -396,6 +429,9 @@ func (f *Frame) computeLoops() {
 		for blk := range f.loops[b].blocks {
 			for _, in := range blk.Instrs {
 				if _, ok := in.(*ssa.DebugRef); ok {
+					continue
+				}
+				if _, ok := in.(*ssa.Phi); ok {
 					continue
 				}
 				if q := in.Pos(); q.IsValid() && q < p {
@@ -589,6 +625,9 @@ func (f *Frame) run(reach string, st *State) {
 		var bst *State
 		var breach string
 		var ins []edge
+		if f.top {
+			e.curOrigin = b
+		}
 		if b == fn.Blocks[0] {
 			bst, breach = st.clone(), reach
 			ins = []edge{{nil, reach, st}}
@@ -616,6 +655,9 @@ func (f *Frame) run(reach string, st *State) {
 		}
 		f.blockR[b] = breach
 		f.curBlock, f.curSt = b, bst
+		if f.top {
+			e.curOrigin = b
+		}
 		// phis
 		np := 0
 		for _, in := range b.Instrs {
@@ -765,13 +807,16 @@ func (f *Frame) execBlock(b *ssa.BasicBlock, reach string, st *State, skip int) 
 			for _, r := range x.Results {
 				vs = append(vs, f.val(r))
 			}
-			f.rets = append(f.rets, retRec{reach, st, vs, f.retOrd[in], in.Pos()})
+			f.rets = append(f.rets, retRec{reach, st, vs, f.retOrd[in], in.Pos(), b})
 			return
 		case *ssa.Panic:
 			f.doPanic(x, reach, st)
 			return
 		default:
 			reach = f.execInstr(in, reach, st)
+			if v, ok := in.(ssa.Value); ok {
+				f.bindLarge(v)
+			}
 			if reach == "false" {
 				return
 			}
@@ -1281,4 +1326,40 @@ func (f *Frame) havocAll(st *State) {
 	}
 	e.nf++
 	st.H["!epoch"] = fmt.Sprintf("ep%d", e.nf)
+}
+
+// bindLarge names large component terms of an SSA value with a fresh constant
+// so that later terms stay small and the solver shares them.
+func (f *Frame) bindLarge(v ssa.Value) {
+	e := f.e
+	val, ok := f.vals[v]
+	if !ok {
+		return
+	}
+	var sorts []string
+	changed := false
+	for i, c := range val.C {
+		if len(c) <= 20 || !strings.HasPrefix(c, "(") || strings.HasPrefix(c, "(- ") && !strings.Contains(c[3:], " ") {
+			continue
+		}
+		if sorts == nil {
+			func() {
+				defer func() { recover() }()
+				sorts = e.layout(val.T)
+			}()
+			if len(sorts) != len(val.C) {
+				return
+			}
+		}
+		n := e.fresh("v."+v.Name(), sorts[i])
+		e.pre.asserts.WriteString("(assert (= " + n + " " + c + "))\n")
+		if !changed {
+			val.C = append([]string(nil), val.C...)
+			changed = true
+		}
+		val.C[i] = n
+	}
+	if changed {
+		f.vals[v] = val
+	}
 }
